@@ -26,10 +26,10 @@ type Roles struct {
 
 // Filter is one registration in filters.AddStandardFilters.
 type Filter struct {
-	Name string
-	Fn   *ssa.Function
-	Sig  *types.Signature
-	Pos  token.Pos
+	Name  string
+	Fn    *ssa.Function
+	Sig   *types.Signature
+	Pos   token.Pos
 	InMod bool
 }
 
@@ -56,10 +56,10 @@ type Block struct {
 
 // Boundary is a function whose deferred closure recovers.
 type Boundary struct {
-	Fn       *ssa.Function
-	Closure  *ssa.Function
-	Handled  []types.Type // asserted types whose arm does not re-panic
-	DeferEarly bool       // the defer is registered before any call
+	Fn         *ssa.Function
+	Closure    *ssa.Function
+	Handled    []types.Type // asserted types whose arm does not re-panic
+	DeferEarly bool         // the defer is registered before any call
 }
 
 func (b *Boundary) handles(t types.Type) bool {
